@@ -163,6 +163,25 @@ def block_two_stoppers(s, progs, n):
     return "(assert (and true %s))" % "\n ".join(cs)
 
 
+def constrain_gc_first(s, progs, n):
+    """Scenario constraint (not a finding mask): every thread other than the collecting one takes its FIRST step only
+    while the collecting thread owns the heap lock, i.e. the collection is already under way when the other
+    operation begins.  On the pinned tree a global assignment then waits for the heap lock inside a safepoint, which
+    is what keeps the two world-stoppers apart in this order."""
+    cs = []
+    col = [t for t in range(len(progs)) if progs[t].role == "script" and "gc" in progs[t].ops]
+    if not col:
+        return "(assert true)"
+    a = col[0]
+    for k in range(s.K):
+        for b in range(len(progs)):
+            if b == a or progs[b].role != "script":
+                continue
+            cs.append("(=> (and (= sched_%d %s) (= pc%d_%d %s)) (= heaplock_%d %s))" % (
+                k, mirbmc.bv(b, mirbmc.LKW), b, k, mirbmc.bv(progs[b].entry.id, mirbmc.PCW), k, mirbmc.bv(a, mirbmc.LKW)))
+    return "(assert (and true %s))" % "\n ".join(cs)
+
+
 def block_interrupt_overwrite(s, progs, n):
     """Listed finding 'interrupt overwritten': the host's interrupt() and the stop/resume of a
     world-stopping script thread write the same controller words (paused, state) without
@@ -205,7 +224,7 @@ def block_interrupt_mid(s, progs, n):
     return "(assert (and true %s))" % "\n ".join(cs)
 
 
-BLOCKS = {"interrupt-mid": block_interrupt_mid, "exit-window": block_exit_window, "two-stoppers": block_two_stoppers, "interrupt-overwrite": block_interrupt_overwrite}
+BLOCKS = {"gc-first": constrain_gc_first, "interrupt-mid": block_interrupt_mid, "exit-window": block_exit_window, "two-stoppers": block_two_stoppers, "interrupt-overwrite": block_interrupt_overwrite}
 
 KF = {
     "exit-window": "sync:safepoint-exit-window",
@@ -342,7 +361,7 @@ def check(pid, tier, seed, plan):
         fname = r.get("finding")
         fkey = KF[fname] if fname else "sync:%s" % re.sub(r"[^a-z0-9]+", "-", name.lower()).strip("-")
         if r["res"] == "unsat":
-            run.ob(name, "pass", nonvacuous=True, note="unsat: no schedule of <= %d steps, %d threads%s" % (r["K"], r["threads"], " (listed finding's pattern excluded)" if blocked else ""), **common)
+            run.ob(name, "pass", nonvacuous=True, note="unsat: no schedule of <= %d steps, %d threads%s" % (r["K"], r["threads"], " (listed finding's pattern excluded)" if (blocked and fname) else ""), **common)
             continue
         if r["res"] != "sat":
             run.ob(name, "inconclusive", reason="solver answered %s" % r["res"], **common)
